@@ -60,7 +60,7 @@ def permute_objs(draw, v):
     return v
 
 
-def corrupt(draw, v, spec):
+def corrupt(draw, v, spec, force=None):
     """By-name corruption of one class instance somewhere in the value spec."""
     objs = []
     by = gen.classes_by_name(spec)
@@ -86,8 +86,16 @@ def corrupt(draw, v, spec):
     o = v
     for p in path:
         o = o[p]
-    kind = draw(st.sampled_from(['drop', 'wrong', 'unknown']))
-    if kind == 'unknown':
+    kind = force or draw(st.sampled_from(['drop', 'wrong', 'unknown', 'dashed_twin', 'dashed_twin']))
+    und = [n for n, _ in o[2] if '_' in n]
+    if kind == 'dashed_twin' and not und:
+        kind = 'unknown'
+    if kind == 'dashed_twin':
+        # both spellings of a key present; the dashed one may hold anything
+        n = draw(st.sampled_from(und))
+        o[2].append([n.replace('_', '-'), draw(st.sampled_from(
+            [['str', 'wrong'], ['int', 99], ['list', []], ['none'], ['bool', True]]))])
+    elif kind == 'unknown':
         o[2].append(['zz_unknown', ['int', 1]])
     elif o[2]:
         i = draw(st.integers(0, len(o[2]) - 1))
@@ -131,12 +139,23 @@ def cases(draw):
             [['union', 'bool', 'int'], ['list', ['union', 'int', 'bool']],
              ['dict', 'str', ['union', 'bool', 'str', ['list', 'bool']]],
              ['opt', ['union', 'bool', 'float']], ['list', ['union', inner, 'bool', 'none']]])))
+    force_twin = False
+    if tk == 'T1' and draw(st.integers(0, 3)) == 0:
+        # a class that tolerates extra keys and has underscored attributes: the
+        # dashed spelling may then be present next to the underscored one
+        xt = {'name': 'XT', 'kind': 'obj', 'bases': [], 'extra': draw(st.sampled_from(['required', 'default'])),
+              'params': [{'name': 'some_key', 'type': draw(st.sampled_from(['int', 'str', ['list', 'int']]))},
+                         {'name': 'n_1', 'type': 'str', 'default': ['str', 'x']}]}
+        spec = dict(spec, classes=spec['classes'] + [xt], order=list(spec['order']) + ['XT'],
+                    doc_type=draw(st.sampled_from([['ref', 'XT'], ['list', ['ref', 'XT']],
+                                                   ['union', ['ref', 'XT'], ['dict', 'str', 'int']]])))
+        force_twin = True
     if tk == 'T1':
         v = draw(gen.vspec_for(spec, spec['doc_type'], hard=False))
         if v is not None:
             how = None
-            if draw(st.integers(0, 2)) == 0:
-                v, how = corrupt(draw, v, spec)
+            if force_twin or draw(st.integers(0, 2)) == 0:
+                v, how = corrupt(draw, v, spec, 'dashed_twin' if force_twin else None)
             v2 = permute_objs(draw, v)
             return {'model': spec, 'T': 'T1', 'text': T.render_flow(gen.project(v, spec)),
                     'text2': T.render_flow(gen.project(v2, spec)), 'src': how or 'value'}
